@@ -14,8 +14,10 @@ theorem builtin_arity_consistent :
     entries.all (fun e => docConsistent e.doc e.min e.max || exceptions.contains e.name) = true := by
   decide +kernel
 
-/-- the table is not vacuous: the extractor still pairs the bulk of the `slip.Define` calls -/
-theorem table_not_vacuous : 600 ≤ entries.length ∧ entries.length + unpairedCount = defineCount := by
+/-- the table is not vacuous: the extractor still pairs at least half of the `slip.Define` calls
+    with a literal argument count check (a renamed `CheckArgCount` or a reshaped `Define` would
+    silently empty the obligation above) -/
+theorem table_not_vacuous : defineCount ≤ 2 * entries.length ∧ 0 < defineCount := by
   decide +kernel
 
 end SlipVerif.Theorems.GenC04
